@@ -207,9 +207,10 @@ def main(rec):
             # the configured length is the length every emitter writes with
             for kind, lens_ in (e.get("linelens") or {}).items():
                 rec.count("configured_line_length_checks")
-                if kind in ("Wrapc", "Wrapf", "Wrapp", "Wrapl") and lens_ != [sp["linelen"]]:
+                want_ = sp.get("linelen_f", sp["linelen"]) if kind == "Wrapf" else sp["linelen"]
+                if kind in ("Wrapc", "Wrapf", "Wrapp", "Wrapl") and lens_ != [want_]:
                     rec.violation("configured-line-length-not-used:%s" % kind,
-                                  "%s: C_line_length / F_line_length = %d, %s wrote with line length(s) %r" % (sp["name"], sp["linelen"], kind, lens_), sp)
+                                  "%s: C_line_length = %d, F_line_length = %d: %s wrote with line length(s) %r" % (sp["name"], sp["linelen"], sp.get("linelen_f", sp["linelen"]), kind, lens_), sp)
         rec.case(key="run:" + sp["name"] if e["continue_split"] else None,
                  sample=(e["line_samples"][0] if e["line_samples"] and len(rec.samples) < 2 else None))
         for mech, detail in e["line_violations"]:
